@@ -23,7 +23,7 @@ def run(ctx):
     # (c) real-size record streams (every legal length up to 2^14+256, oversize headers, zero-length records) through Read and
     # Write with cuts: the recorded traces (panics are events of the trace) are validated against EchPipe.tla
     import c07
-    c07.pipe_traces(ctx, 300 if ctx.quick else 10000, label="c08pp")
+    c07.pipe_traces(ctx, 300 if ctx.quick else 4000, label="c08pp")
     # stall clause: EchWatch scenarios with HelloAt = -1, the client stalling at every (quick: every 16th) byte offset
     ctx.mc("EchWatch", "MCEchWatch.cfg", timeout=600)
     watch.run_watch(ctx, 1, 16 if ctx.quick else 1, label="stall")
